@@ -300,7 +300,7 @@ pub fn c03exec(args: &[String]) {
         }
     }
     // ---- 2. faults in the dictionaries themselves (parse, then decode with whatever was accepted) ----
-    let dict_frame = build(&frame_set("dict")[1]).bytes;
+    let dict_frames: Vec<Vec<u8>> = frame_set("dict").iter().filter(|f| f.name == "dA_tables" || f.name == "dA_rep3" || f.name == "dB_plain").map(|f| build(f).bytes).collect();
     for (di, raw) in draw.iter().enumerate() {
         for pos in 0..raw.len().min(if quick { 140 } else { raw.len() }) {
             for f in [0x00u8, 0xFF, raw[pos] ^ 1, raw[pos] ^ 0x80, raw[pos].wrapping_add(1)] {
@@ -316,7 +316,9 @@ pub fn c03exec(args: &[String]) {
                     if let Err(p) = r {
                         cx.bad.push(json!({"case": idx, "what": {"kind": "dictionary_fault", "dictionary": di, "position": pos, "value": f}, "errors": [format!("decode_dict panicked: {}", panic_msg(p))]}));
                     }
-                    cx.case(idx, &|| json!({"kind": "dictionary_fault", "dictionary": di, "position": pos, "value": f}), &dict_frame, &[m.clone()]);
+                    for df in &dict_frames {
+                        cx.case(idx, &|| json!({"kind": "dictionary_fault", "dictionary": di, "position": pos, "value": f}), df, &[m.clone()]);
+                    }
                 }
                 idx += 1;
             }
